@@ -389,3 +389,313 @@ Proof.
   - intros rs1 r rs2 -> Hall Hr. exact (boost_reaches_with_big_draw m f rs1 r rs2 p Hf Hall Hr).
 Qed.
 Print Assumptions C19_eventually_runs_needs_big_draw.
+
+(* ======================================================================== *)
+(* Whole histories (proofs in Queue/BoostHist.v)                              *)
+(* ======================================================================== *)
+(* Additional vocabulary (Queue/BoostHist.v):
+     round_ops load        the operation history  popleft(); append_pri(o1,p1);
+                           popleft(); append_pri(o2,p2); ...  of a load
+     ident e               (object, sequence number, base priority, inserted_at,
+                           class): everything of an entry but its boost
+     popped_in H s e load  some popleft of the load, started in s, returns e
+                           (an entry e1 with ident e1 = ident e)
+     pair_pa H s x         the state after the round x = (o,p) started in s
+     window L              L + max(10,L) + 1 rounds, i.e. 2(L + max(10,L) + 1)
+                           <= 4L + 22 queue operations
+     shrink rho f          max(0, 1 - rho f);   qpow x k = x^k
+   The prior history is ARBITRARY (any operations, any number of drains to
+   empty, any boost factor and draws): it is summarised by the invariant
+   SInv = heap layout + distinct sequence numbers + C19_counter_inv +
+   C19_ins_at_inv, which holds in every reachable state WITH boosting enabled
+   (reachable_SInv; maintenance re-heapifies iff it boosted something).       *)
+From Asynkit Require Import Queue.BoostHist.
+
+(* the sustained load IS an operation history: two operations per round *)
+Theorem C19_rounds_are_operations : forall f ds history (load : list (Z * Q)),
+  let s := pos_exec (pos_empty f ds) history in
+  2 <= plen s ->
+  pairs HPV s load = pos_exec s (round_ops load) /\
+  length (round_ops load) = (2 * length load)%nat.
+Proof.
+  intros f ds history load s HL. split; [|apply round_ops_length].
+  apply pairs_pos_exec; [apply reachable_SInv | exact HL].
+Qed.
+Print Assumptions C19_rounds_are_operations.
+
+(* Sustained-load history.  After an ARBITRARY prior history the queue holds
+   L >= 2 entries, among them the regular entry e (the straggler).  The load
+   keeps the length at L: every popleft is followed by an append_pri of a new
+   entry (of any priority - the more urgent the stream, the longer e waits).
+   Factor > 0, every remaining draw >= rho > 0, L draws available per round.
+   Then in EVERY window  win  of  L + max(10,L) + 1  rounds of the load (after
+   any number  pre  of earlier rounds) there is a round x, preceded by at most
+   L + max(10,L) rounds of the window, such that e was popped by then, or the
+   append of round x runs maintenance and that run CONSIDERS e: its current
+   version e1 (same ident, priority() only lower) is in the array, passes the
+   straggler test  inserted_at < n_inserted - len, and with m the most urgent
+   regular priority at that moment, if priority() > m its boost is strictly
+   lowered and its distance to m multiplied by at most max(0, 1 - rho factor);
+   in any case its distance to any bound hi >= the appended priority (G: any
+   bound of that distance) is multiplied by at most that factor.
+   Nothing here mentions the prior history. *)
+Theorem C19_straggler_history :
+  forall (f : Q) (ds : list Q) (history : list posop)
+         (rho : Q) (e : entry pv) (pre win : list (Z * Q)),
+  let s := pos_exec (pos_empty f ds) history in
+  let L := plen s in
+  2 <= L -> In e (arr (pq_ s)) -> regular e ->
+  (0 < factor s)%Q -> (0 < rho)%Q ->
+  Forall (fun d => rho <= d)%Q (draws s) ->
+  Z.of_nat (length (pre ++ win)) * L <= Z.of_nat (length (draws s)) ->
+  L + Z.max 10 L + 1 <= Z.of_nat (length win) ->
+  exists l1 x l2, win = l1 ++ x :: l2 /\
+    L <= Z.of_nat (length l1) <= L + Z.max 10 L /\
+    (popped_in HPV s e (pre ++ l1 ++ [x]) \/
+     exists e1 o s1,
+       let st1 := pairs HPV s (pre ++ l1) in
+       In e1 (arr (pq_ st1)) /\ ident e1 = ident e /\ (prio e1 <= prio e)%Q /\
+       pos_popleft HPV st1 = Some (o, s1) /\
+       let sm := pre_maint HPV s1 (fst x) (snd x) in
+       due sm = true /\                                  (* maintenance runs *)
+       In e1 (arr (pq_ sm)) /\
+       ins_at (epri e1) < n_ins sm - plen sm /\          (* e1 is a straggler *)
+       exists e', In e' (arr (pq_ (pair_pa HPV st1 x))) /\
+         ident e' = ident e1 /\ (prio e' <= prio e1)%Q /\
+         (forall m,
+            ((exists e0, In e0 (arr (pq_ sm)) /\ regular e0 /\ (prio e0 == m)%Q) /\
+             (forall e0, In e0 (arr (pq_ sm)) -> regular e0 -> (m <= prio e0)%Q)) ->
+            (m < prio e1)%Q ->
+            (boost (epri e') < boost (epri e1))%Q /\
+            (prio e' - m <= shrink rho (factor s) * (prio e1 - m))%Q) /\
+         (forall hi G, (snd x <= hi)%Q -> (0 <= G)%Q -> (prio e1 - hi <= G)%Q ->
+            (prio e' - hi <= shrink rho (factor s) * G)%Q)).
+Proof.
+  intros f ds history rho e pre win s L HL He Hreg Hf Hrho Hd Hdl Hlen.
+  assert (Hs : SInv HPV s) by apply reachable_SInv.
+  destruct (straggler_history HPV HPV_plt HPV_heapspec s e rho pre win Hs HL He Hreg Hf Hrho)
+    as (l1 & x & l2 & E & B & C); [split; assumption | exact Hlen |].
+  exists l1, x, l2. split; [exact E|]. split; [exact B|].
+  destruct C as [Pp|(e1 & He1 & [T1 T2] & (o & s1 & P & Hdue & Hm & Hst & e' & He' & [T3 T4] & C1 & C2))];
+    [left; exact Pp|right].
+  pose proof (pairs_factor HPV HPV_plt HPV_heapspec (pre ++ l1) s Hs HL) as Ef.
+  exists e1, o, s1. cbv zeta. repeat (split; [assumption|]).
+  exists e'. rewrite Ef in C1, C2. repeat (split; [assumption|]). exact C1.
+Qed.
+Print Assumptions C19_straggler_history.
+
+(* "so it eventually runs", over whole histories, with an explicit bound.
+   After an ARBITRARY prior history: L >= 2 entries, the straggler e (class 1),
+   factor > 0, every draw >= rho > 0 (e.g. the constant d), L draws per round.
+   Phase 1: K windows of rounds whose appended priorities are <= hi (the
+   least urgent priority of the stream).  If G bounds the initial distance
+   priority(e) - hi, then after phase 1 the distance is at most
+   eps := max(0, 1 - rho factor)^K * G  (or e was popped).
+   Phase 2: as soon as the stream's priorities are >= hi + eps - they may all
+   still be more urgent than e's own base priority - e is returned by a popleft
+   among the next 2L rounds.  So e is popped by one of the first
+   K (L + max(10,L) + 1) + 2L rounds = twice as many operations: a bound in L,
+   rho, factor, G and eps only, independent of the prior history.
+   Special case rho * factor >= 1: shrink = 0, so K = 1 and eps = 0: phase 2
+   may be the same constant stream as phase 1 (hi + 0 <= hi).  For
+   rho * factor < 1 and a stream that stays at hi forever, e is NOT popped with
+   exact rationals, for any number of rounds (C19_history_never_runs_small_draws,
+   C19_history_needs_big_draw below): eps = 0 is then not
+   reachable for any K, which is why the statement has the threshold form. *)
+Theorem C19_eventually_runs_history :
+  forall (f : Q) (ds : list Q) (history : list posop)
+         (rho hi G eps : Q) (K : nat) (e : entry pv) (phase1 phase2 : list (Z * Q)),
+  let s := pos_exec (pos_empty f ds) history in
+  let L := plen s in
+  2 <= L -> In e (arr (pq_ s)) -> pclass (epri e) = 1 ->
+  (0 < factor s)%Q -> (0 < rho)%Q ->
+  Forall (fun d => rho <= d)%Q (draws s) ->
+  Z.of_nat (length phase1) * L <= Z.of_nat (length (draws s)) ->
+  Z.of_nat (length phase1) = Z.of_nat K * (L + Z.max 10 L + 1) ->
+  Forall (fun x => snd x <= hi)%Q phase1 ->
+  (0 <= G)%Q -> (prio e - hi <= G)%Q ->
+  (qpow (shrink rho (factor s)) K * G <= eps)%Q ->
+  2 * L <= Z.of_nat (length phase2) ->
+  Forall (fun x => hi + eps <= snd x)%Q phase2 ->
+  exists l1 x l2 e1 q,
+    phase1 ++ phase2 = l1 ++ x :: l2 /\
+    Z.of_nat (length l1) < Z.of_nat K * (L + Z.max 10 L + 1) + 2 * L /\
+    (* the popleft of round x returns e *)
+    pq_popentry HPV (pq_ (pairs HPV s l1)) = Some (e1, q) /\ ident e1 = ident e.
+Proof.
+  intros f ds history rho hi G eps K e phase1 phase2 s L HL He Hcl Hf Hrho Hd Hdl Hlen Hhi HG HeG
+         Heps Hlen2 Hlo.
+  apply (eventually_runs_bound HPV HPV_plt HPV_heapspec s e rho hi G eps K phase1 phase2);
+    auto; [apply reachable_SInv | split; assumption].
+Qed.
+Print Assumptions C19_eventually_runs_history.
+
+(* its two halves, from any state satisfying the invariant and for every heap
+   implementation meeting HeapSpec whose order is PriorityValue.__lt__:
+   (1) K windows shrink the distance to hi by shrink^K (or the entry is popped) *)
+Theorem C19_windows_shrink : forall (H : heapimpl pv), plt H = pv_lt -> HeapSpec H ->
+  forall K st e rho hi G load,
+  SInv H st -> 2 <= plen st -> In e (arr (pq_ st)) -> regular e ->
+  (0 < factor st)%Q -> (0 < rho)%Q ->
+  Forall (fun d => rho <= d)%Q (draws st) /\
+  Z.of_nat (length load) * plen st <= Z.of_nat (length (draws st)) ->
+  Z.of_nat (length load) = Z.of_nat K * (plen st + Z.max 10 (plen st) + 1) ->
+  Forall (fun x => snd x <= hi)%Q load -> (0 <= G)%Q -> (prio e - hi <= G)%Q ->
+  popped_in H st e load \/
+  exists e', In e' (arr (pq_ (pairs H st load))) /\
+             (ident e' = ident e /\ (prio e' <= prio e)%Q) /\
+             (prio e' - hi <= qpow (shrink rho (factor st)) K * G)%Q.
+Proof. exact windows_shrink. Qed.
+Print Assumptions C19_windows_shrink.
+
+(* (2) overtaking: an entry of class 1 with priority() <= T is popped within 2L
+   rounds whose appended priorities are >= T (it has the older sequence
+   number), whatever maintenance does meanwhile: at most one run in L rounds. *)
+Theorem C19_overtakes : forall (H : heapimpl pv), plt H = pv_lt -> HeapSpec H ->
+  forall st e T load,
+  SInv H st -> 2 <= plen st -> In e (arr (pq_ st)) -> pclass (epri e) = 1 ->
+  (prio e <= T)%Q -> Forall (fun x => T <= snd x)%Q load ->
+  2 * plen st <= Z.of_nat (length load) -> popped_in H st e load.
+Proof. exact overtakes. Qed.
+Print Assumptions C19_overtakes.
+
+(* every reachable state satisfies the invariant these theorems start from *)
+Theorem C19_reachable_invariant : forall f ds history,
+  let s := pos_exec (pos_empty f ds) history in
+  (* heap layout and distinct, bounded sequence numbers - with boosting on *)
+  (Heap.is_heap (entry_lt pv_lt) (arr (pq_ s)) /\
+   NoDup (map (@eseq pv) (arr (pq_ s))) /\
+   Forall (fun e => eseq e < seqn (pq_ s)) (arr (pq_ s)) /\ 0 <= seqn (pq_ s)) /\
+  (0 <= last_maint s /\ last_maint s <= Z.min (n_ins s) (n_rem s)) /\
+  Forall (fun e => ins_at (epri e) <= n_ins s) (arr (pq_ s)).
+Proof.
+  intros f ds history s. destruct (reachable_SInv f ds history) as [A B C].
+  split; [exact A|]. split; [exact B|exact C].
+Qed.
+Print Assumptions C19_reachable_invariant.
+
+(* History independence, explicitly: two queues that agree on their contents
+   (up to boosts and array order) after DIFFERENT prior histories - different
+   factors, draws, operations, hence different counters n_inserted / n_removed /
+   last_maintenance - both consider their straggler (or have popped it) within
+   the SAME bound: a round preceded by at most L + max(10,L) rounds of any
+   window of L + max(10,L) + 1 rounds.  (considered_within H rho s e win L is
+   the conclusion of C19_straggler_history with pre = [].) *)
+Theorem C19_history_independent :
+  forall f1 ds1 h1 f2 ds2 h2 rho e1 e2 win1 win2,
+  let s1 := pos_exec (pos_empty f1 ds1) h1 in
+  let s2 := pos_exec (pos_empty f2 ds2) h2 in
+  Permutation (map ident (arr (pq_ s1))) (map ident (arr (pq_ s2))) ->
+  let L := plen s1 in
+  2 <= L ->
+  In e1 (arr (pq_ s1)) -> In e2 (arr (pq_ s2)) -> regular e1 -> regular e2 ->
+  (0 < factor s1)%Q -> (0 < factor s2)%Q -> (0 < rho)%Q ->
+  (Forall (fun d => rho <= d)%Q (draws s1) /\
+   Z.of_nat (length win1) * L <= Z.of_nat (length (draws s1))) ->
+  (Forall (fun d => rho <= d)%Q (draws s2) /\
+   Z.of_nat (length win2) * L <= Z.of_nat (length (draws s2))) ->
+  L + Z.max 10 L + 1 <= Z.of_nat (length win1) ->
+  L + Z.max 10 L + 1 <= Z.of_nat (length win2) ->
+  plen s2 = L /\
+  considered_within HPV rho s1 e1 win1 L /\ considered_within HPV rho s2 e2 win2 L.
+Proof. exact history_independent. Qed.
+Print Assumptions C19_history_independent.
+
+(* Example (by computation).  Prior busy period: 300 operations, two stretches
+   drained to empty and a third that leaves 7 entries and the counters at
+   (last_maintenance, n_inserted, n_removed) = (66, 79, 71); then the straggler
+   (object 100, priority 10): L = 8, factor 3/2, every draw d = 1/2, so the
+   factor of C19_maintenance_shrinks is 1/4.  Stream: 38 rounds (K = 2 windows of
+   19) of priority 0, then priority 1 >= 0 + (1/4)^2 * 10.  Bound of
+   C19_eventually_runs_history: 2*19 + 2*8 = 54 rounds = 108 operations; the
+   straggler is actually returned by the popleft of round 46 (operation 91). *)
+Theorem C19_history_example :
+  let s := ex_start (3#2) in
+  length busy_history = 300%nat /\
+  (plen s, last_maint s, n_ins s, n_rem s) = (8, 66, 79, 71) /\
+  popped_in HPV s ex_entry (ex_phase1 ++ ex_phase2) /\
+  pop_round s (ex_phase1 ++ ex_phase2) 100 1 = Some 46%nat /\
+  (46 <= 2 * 19 + 2 * 8)%nat.
+Proof. exact history_example. Qed.
+Print Assumptions C19_history_example.
+
+(* the same start with factor 2 (d * factor = 1): one window, constant stream of
+   priority 0 throughout; bound 19 + 16 = 35 rounds, actual round 18 *)
+Theorem C19_history_example_big_draw :
+  let s := ex_start 2 in
+  let load := repeat (50, 0%Q) 19 ++ repeat (50, 0%Q) 16 in
+  popped_in HPV s ex_entry load /\ pop_round s load 100 1 = Some 18%nat.
+Proof. exact history_example_big_draw. Qed.
+Print Assumptions C19_history_example_big_draw.
+
+(* ... and why "reaches the minimum / is popped" cannot be claimed for
+   d * factor < 1 against a stream that stays at one priority: factor 3/2, d = 1/2,
+   120 rounds of priority 0 (10 maintenance runs, each considering the
+   straggler): never popped, priority() = 10 - 5242875/524288 = 10/4^10 > 0. *)
+Theorem C19_history_needs_big_draw :
+  let s := ex_start (3#2) in
+  let load := repeat (50, 0%Q) 120 in
+  pop_round s load 100 1 = None /\
+  filter (fun x => fst (fst (fst x)) =? 100) (summary (pairs HPV s load))
+  = [(100, 1, 10%Q, (-5242875 # 524288)%Q)].
+Proof. exact history_needs_big_draw. Qed.
+Print Assumptions C19_history_needs_big_draw.
+
+(* two histories with the same contents and different counters (remove() counts
+   a removal, find(remove=True) does not): maintenance first runs in round 10
+   resp. 11, both within the bound 3 + max(10,3) + 1 = 14 of
+   C19_history_independent *)
+Theorem C19_history_independent_example :
+  let s1 := pos_exec (pos_empty (3#2) (repeat (1#2) 100)) (hi_base ++ [QRemove 3]) in
+  let s2 := pos_exec (pos_empty (3#2) (repeat (1#2) 100)) (hi_base ++ [QFind 3 true]) in
+  map ident (arr (pq_ s1)) = map ident (arr (pq_ s2)) /\
+  (last_maint s1, n_ins s1, n_rem s1) = (0, 4, 1) /\
+  (last_maint s2, n_ins s2, n_rem s2) = (0, 4, 0) /\
+  map (fun i => (last_maint (pairs HPV s1 (repeat (4, 0%Q) i)),
+                 last_maint (pairs HPV s2 (repeat (4, 0%Q) i)))) [9; 10; 11]%nat
+  = [(0, 0); (11, 0); (11, 11)].
+Proof. exact history_independent_example. Qed.
+Print Assumptions C19_history_independent_example.
+
+(* The converse, over whole histories and for EVERY load length: why the
+   threshold form of C19_eventually_runs_history is the strongest true one.
+   After an arbitrary prior history, let every remaining draw r have
+   0 <= r and r * factor < 1, let q be a lower bound of the priority() of all
+   regular entries, the straggler e (class 1) strictly above it, some entry e0
+   ahead of e now, and let the stream stay at priority q.  Then e is NEVER
+   returned by a popleft, and it stays queued with q < priority() (each
+   maintenance multiplies its distance to q by 1 - r factor > 0; the entry
+   appended last is always ahead of it).  With exact rationals "eventually
+   runs" therefore needs a draw with r * factor >= 1 or a stream that is at some
+   point less urgent than the minimum by a margin. *)
+Theorem C19_history_never_runs_small_draws :
+  forall (f : Q) (ds : list Q) (history : list posop) (q : Q) (e e0 : entry pv)
+         (load : list (Z * Q)),
+  let s := pos_exec (pos_empty f ds) history in
+  2 <= plen s -> In e (arr (pq_ s)) -> pclass (epri e) = 1 ->
+  (0 < factor s)%Q ->
+  Forall (fun r => 0 <= r /\ r * factor s < 1)%Q (draws s) ->
+  (forall x, In x (arr (pq_ s)) -> regular x -> (q <= prio x)%Q) ->
+  (q < prio e)%Q ->
+  In e0 (arr (pq_ s)) -> entry_lt pv_lt e0 e = true ->
+  Forall (fun x => snd x == q)%Q load ->
+  ~ popped_in HPV s e load /\
+  exists e', In e' (arr (pq_ (pairs HPV s load))) /\ ident e' = ident e /\
+             (q < prio e')%Q /\ (prio e' <= prio e)%Q.
+Proof.
+  intros f ds history q e e0 load s HL He Hcl Hf Hd Hlb Hgt He0 Hah Hq.
+  destruct (never_popped HPV HPV_plt HPV_heapspec q load s e) as (Hnp & e' & Hn' & [T1 T2]).
+  - apply mkNI; auto; [apply reachable_SInv | exists e0; split; [exact He0|exact Hah]].
+  - exact Hq.
+  - split; [exact Hnp|]. exists e'. split; [apply (ni_in _ _ _ _ Hn')|]. split; [exact T1|].
+    split; [apply (ni_gt _ _ _ _ Hn') | exact T2].
+Qed.
+Print Assumptions C19_history_never_runs_small_draws.
+
+(* ... its hypotheses hold in the start state of C19_history_example (factor 3/2,
+   draws 1/2, stream of priority 0): for every n the straggler is not popped in
+   n rounds *)
+Theorem C19_history_never_example : forall n,
+  ~ popped_in HPV (ex_start (3#2)) ex_entry (repeat (50, 0%Q) n).
+Proof. exact history_never_example. Qed.
+Print Assumptions C19_history_never_example.
